@@ -28,7 +28,7 @@ try:
     demo_mut = subprocess.run(['/venv/bin/python', src['demo']], cwd=d, env=env, capture_output=True, text=True)
     res = {}
     for cid in [pid] + extra:
-        p = subprocess.run(['/verif/check', cid, '--tier', tier, '--no-evidence'], env=dict(os.environ, VERIF_REPO=d), capture_output=True, text=True)
+        p = subprocess.run(['/verif/check', cid, '--tier', tier, '--no-evidence'], env=dict(os.environ, VERIF_REPO=d, VERIF_REPLAY_DIR=os.path.join(d, '_replays')), capture_output=True, text=True)
         sigs = [l.strip() for l in p.stdout.splitlines() if l.strip().startswith('signature=')]
         res[cid] = {'exit': p.returncode, 'violation_lines': sum(1 for l in p.stdout.splitlines() if l.startswith('VIOLATION')),
                     'signatures': [s[:200] for s in sigs[:3]]}
